@@ -33,13 +33,14 @@ COQ_TARGETS = ["props/P_C18.vo", "corr/Corr_C18.vo"]
 PROOF_FILES = ["proofs/FnTestRun_proofs.v"]
 RULE = ("(a) corpus of shrunk past failures; (b) EXHAUSTIVE small scope: every sequence of <=2 (quick) / <=3 (thorough) "
         "cases over 5 case bodies x {plain, variant, skip} against the patching ResourceFunction; (c) random "
-        "FunctionTests of 1..20 cases against 6 ResourceFunctions (patch / recreate / never / readonly / "
-        "deleteIfExists / plural-lookup) and 2 ValueFunctions whose behaviour depends on inputs and on the "
+        "FunctionTests of 1..20 cases against 8 ResourceFunctions (patch / recreate / never / readonly / "
+        "deleteIfExists / plural-lookup / two with user annotations + x-koreo-compare-last-applied) and 2 ValueFunctions whose behaviour depends on inputs and on the "
         "current resource; cases mix inputOverrides (deep-merged), currentResource, overlayResource (static, "
         "resource- and input-dependent, failing), all four assertion kinds made true or false from an "
         "instrumented run, variant/skip flags anywhere, at most one planned failing non-variant case, injected "
-        "inputs-overlay errors; every test is run as is, twice, as a single folded case, and in up to 6 derived "
-        "forms (variants removed / some removed / moved / duplicated+inserted, skips removed, both removed); "
+        "inputs-overlay errors; every test is run as is, twice, as a single folded case, with passing cases' "
+        "assertion kinds swapped, and in up to 6 derived forms (variants removed / some removed / moved / "
+        "duplicated+inserted, skips removed, both removed); "
         "(d) direct streams for cel.functions._overlay and MockApi. A test is non-trivial when it has >=3 executed "
         "cases, >=1 variant or skip among them, and the threaded state changed at least once; distinct by content")
 ASSUMPTIONS = [
